@@ -36,6 +36,8 @@ func runC12(c *core.Ctx) {
 	c.Rule("R2", "per received item exactly one synchronous invocation on every path of the loop body; no other receive in the body; the loop ends only when the mailbox is found closed", 4)
 	c.Rule("R3", "actor identity (effect gets the receiver) and Post/Send = exactly one synchronous send of the argument on the not-closed path", 3)
 	c.Rule("R4", "Spawn: child built by the constructor; parent/children registered exactly on the parent-open edge", 1)
+	c.Rule("R5", "every mailbox object is built with its own state: the channel stored at construction is not read out of package-level state (shared between instances), and every constructor path of an actor installs a children map", 2)
+	c12ownState(c)
 	ops := core.ChanOps(p)
 	for _, box := range []c12box{{typ: "HandlerDef", field: "HandlerDef.ch", send: "Post"}, {typ: "ActorDef", field: "ActorDef.ch", send: "Send"}} {
 		// run-role: method that receives from the field
@@ -351,4 +353,114 @@ func c12spawn(p *core.Prog, sp *ssa.Function) (bool, string) {
 	}
 	// closed edge returns without registering: implied by dominance above (registration only under !closed)
 	return true, "child from the constructor; parent/children registered only when the parent is open; child returned on every path"
+}
+
+
+// c12ownState (R5): independence of mailboxes at construction.
+func c12ownState(c *core.Ctx) {
+	p := c.P
+	for _, box := range []struct{ typ, field string }{{"HandlerDef", "HandlerDef.ch"}, {"ActorDef", "ActorDef.ch"}} {
+		n, bad := 0, ""
+		for _, f := range p.Funcs {
+			core.Instrs(f, func(ins ssa.Instruction) {
+				st, ok := ins.(*ssa.Store)
+				if !ok || core.FieldKey(st.Addr) != box.field {
+					return
+				}
+				n++
+				if g := sharedOrigin(p, st.Val); g != "" {
+					bad = core.FuncName(f) + " stores a channel taken from the package-level " + g + " (" + p.InstrPos(ins) + ")"
+				}
+			})
+		}
+		if n == 0 {
+			c.Unknown("R5", box.typ+"/own-channel", "-", "no store of the mailbox channel found")
+			continue
+		}
+		c.Check(bad == "", "R5", box.typ+"/own-channel", p.Pos(p.Named(p.Fpgo, box.typ).Obj().Pos()), fmt.Sprintf("%d construction sites, none takes the channel from package-level state", n), bad+": objects built this way share one mailbox - work runs on another object's goroutine and closing one closes all")
+	}
+	// a writer of the children map that installs the map itself when it is missing makes construction-time
+	// allocation unnecessary
+	mkChildren := func(ins ssa.Instruction) bool {
+		st, ok := ins.(*ssa.Store)
+		if !ok || core.FieldKey(st.Addr) != "ActorDef.children" {
+			return false
+		}
+		return c12freshMap(p, st.Val, 0)
+	}
+	writers, lazy := 0, 0
+	for _, f := range p.Funcs {
+		upd := false
+		core.Instrs(f, func(ins ssa.Instruction) {
+			if mu, ok := ins.(*ssa.MapUpdate); ok && core.FieldKey(mu.Map) == "ActorDef.children" {
+				upd = true
+			}
+		})
+		if upd {
+			writers++
+			if _, mx := core.DeepCount(p, f, mkChildren, nil); mx >= 1 {
+				lazy++
+			}
+		}
+	}
+	lazyChildren := writers > 0 && lazy == writers
+	// children map: every function that builds an actor (allocates one and stores its channel) installs a map on every path
+	for _, f := range p.Funcs {
+		if f.Parent() != nil {
+			continue
+		}
+		var alloc *ssa.Alloc
+		core.Instrs(f, func(ins ssa.Instruction) {
+			if a, ok := ins.(*ssa.Alloc); ok {
+				if pt, isP := a.Type().Underlying().(*types.Pointer); isP {
+					if _, isN := pt.Elem().(*types.Named); isN && core.TypeName(pt.Elem()) == "ActorDef" {
+						alloc = a
+					}
+				}
+			}
+		})
+		if alloc == nil {
+			continue
+		}
+		c.Analysed(core.FuncName(f))
+		min := core.DeepMin(p, f, mkChildren, nil)
+		c.Check(min >= 1 || lazyChildren, "R5", core.FuncName(f)+"/children-map", p.Pos(f.Pos()), "every path installs a children map (or every writer of the map installs it on demand)", "a path of "+core.FuncName(f)+" builds an actor without a children map: Spawn on that actor panics (assignment to entry in nil map) before the child is registered")
+	}
+}
+
+// c12freshMap: v is a map made on the spot, or a parameter of an unexported function for which every caller
+// passes one.
+func c12freshMap(p *core.Prog, v ssa.Value, depth int) bool {
+	v = core.Resolve(v)
+	if _, isMk := v.(*ssa.MakeMap); isMk {
+		return true
+	}
+	par, isP := v.(*ssa.Parameter)
+	if !isP || depth > 3 {
+		return false
+	}
+	fn := par.Parent()
+	if fn.Parent() != nil || fn.Object() == nil || fn.Object().Exported() {
+		return false
+	}
+	idx := -1
+	for i, q := range fn.Params {
+		if q == par {
+			idx = i
+		}
+	}
+	sites, ok := 0, true
+	for _, f := range p.Funcs {
+		core.Instrs(f, func(ins ssa.Instruction) {
+			cc, isC := ins.(ssa.CallInstruction)
+			if !isC || cc.Common().IsInvoke() || core.Callee(cc.Common()) != fn {
+				return
+			}
+			sites++
+			if idx < 0 || idx >= len(cc.Common().Args) || !c12freshMap(p, cc.Common().Args[idx], depth+1) {
+				ok = false
+			}
+		})
+	}
+	return ok && sites > 0
 }
